@@ -784,6 +784,12 @@ func (fv *FuncVC) nilCheck(ref string, pos token.Pos, what string) {
 	if fv.C != nil && fv.C.Flags["nonil"] != "" {
 		return
 	}
+	if fv.C != nil && fv.C.Flags["nilpanics"] != "" {
+		// `flag nilpanics`: a nil dereference is a run-time panic, i.e. an exit without output, not a
+		// wrong result; execution continues only if the pointer was not nil
+		fv.assume(app("not", app("=", ref, "0")))
+		return
+	}
 	fv.oblige("nil", what, nil, pos, app("not", app("=", ref, "0")), "")
 }
 
